@@ -49,9 +49,13 @@ fn xtext(x: &Rat) -> String {
     if x.is_negative() { format!("-{}", t) } else { t }
 }
 
-const REFUSE: [&str; 12] = [
+const REFUSE: [&str; 28] = [
     "3 m {s}", "(5 °C) {s}", "300 K -> 2 {s}", "300 K -> {s} m", "300 K -> m {s}", "300 K -> hex {s}",
     "300 K -> {s} {s}", "300 K -> {s}/2", "3 m -> {s}", "300 K -> {s} + 1", "3 s {s}", "300 K -> 1 {s}",
+    // whatever follows the scale makes the target compound: lists, chains, brackets, powers
+    "300 K -> {s}, {s}", "300 K -> {s}; {s}", "300 K -> {s},", "300 K -> {s};", "300 K -> {s})", "300 K -> {s} -> {s}",
+    "300 K -> {s} to K", "300 K -> {s} in {s}", "300 K -> {s} ->", "300 K -> {s}^2", "300 K -> {s} per s", "300 K -> {s} K",
+    "300 K -> {s}, m", "300 K -> {s} → °C", "300 K -> {s} * 2", "300 K -> {s} - 1",
 ];
 
 /// Operands that already carry a dimension: refused under a scale operator whatever follows.
@@ -117,7 +121,7 @@ impl Space for C10 {
         Meta {
             id: "C10",
             level: "exploration",
-            rule: "rational x (boundary set: 0, +-1, 32, 100, -273.15, -459.67, -500, 1/3, -22/7, a 21-digit fraction, 1e20, ...; thorough adds the grid p/q, |p|<=40, q in {1,2,3,7,10,97}) x all 26 spellings of the six scales: `x <s>` against hard-coded textbook affine maps; `(x <s1>) -> <s2>` for all 26x26 ordered spelling pairs (36 scale pairs, incl. same-scale round trips); chains of three conversions over all 6^3 scale triples; 12 refusal shapes x 26 spellings (dimensioned operand, scale inside a compound target, trailing text after a scale target, base modifier, non-temperature source); 4 dimensioned operands under every spelling converted to every spelling (26x26, incl. the same scale); every x and ordered scale pair again under the format modifiers frac / sci / eng / digits / digits 20 / digits 0 in front of the target. Non-trivial = all; distinct by query text".into(),
+            rule: "rational x (boundary set: 0, +-1, 32, 100, -273.15, -459.67, -500, 1/3, -22/7, a 21-digit fraction, 1e20, ...; thorough adds the grid p/q, |p|<=40, q in {1,2,3,7,10,97}) x all 26 spellings of the six scales: `x <s>` against hard-coded textbook affine maps; `(x <s1>) -> <s2>` for all 26x26 ordered spelling pairs (36 scale pairs, incl. same-scale round trips); chains of three conversions over all 6^3 scale triples; 28 refusal shapes x 26 spellings (dimensioned operand, scale inside a compound target, anything after a scale target: text, a list separator, a second arrow, a bracket, a power; base modifier, non-temperature source); 4 dimensioned operands under every spelling converted to every spelling (26x26, incl. the same scale); every x and ordered scale pair again under the format modifiers frac / sci / eng / digits / digits 20 / digits 0 in front of the target. Non-trivial = all; distinct by query text".into(),
             assumptions: vec!["textbook constants: 273.15, 459.67, 5/9, 5/4, 40/21 & 7.5, 373.15 & 2/3, 100/33".into()],
             exhaustive: true,
             extra: json!({"families": self.fams.summary(), "spellings": SPELL.iter().map(|s| s.0).collect::<Vec<_>>(), "refusal_shapes": REFUSE}),
